@@ -95,6 +95,11 @@ claimed = {
    note="Signature clause outside the technique. Bounded: one wallet state, one or two sends. Random picks explored exhaustively.",
    technique="SSA symbolic execution + SMT (symbolic minconf/height/maturity), exhaustive exploration of selection orders",
    design="5 C06"),
+ "C09": dict(
+   text="Two goroutines call the real Wallet.NewAddress / NewChangeAddress / CurrentAddress concurrently on the same account; the executor's cooperative scheduler explores every interleaving of their synchronisation operations (wallet mutex, database writer lock, manager locks, the point between releasing the writer lock and running commit handlers) with at most 1-2 preemptive context switches. Asserted: both succeed, new addresses are distinct, indices gap-free, every obtained address persisted, and a freshly opened wallet agrees with memory.",
+   note="Bounded: 2 callers, 3 of 6 entry points, preemption bound 2. Data-race freedom assumed. Schedule-dependent counterexamples are confirmed by deterministic re-execution in the executor when the native scheduler does not reproduce them.",
+   technique="SSA symbolic execution with preemption-bounded exhaustive schedule exploration",
+   design="5 C09"),
 }
 
 not_applicable = {
